@@ -117,6 +117,26 @@ theorem numeric_option_reaches_attr (T : Table) (hn : T.numericNotTruthy = true)
   rw [harg, numeric_option_value_applies T hn r hr hnum]
   simp [OptRule.value, hval, ArgVal.raw]
 
+/-- **an isolated conf key touches nothing but its own attributes**: adding the line `TAG = value` for an
+isolated tag (`Table.tagIsolated`) to any configuration changes no attribute outside `boundAttrs`, and does not
+change whether the pass raises.  Together with `option_overrides_file` / `file_tag_sets_attr` this is the whole
+effect of such a tag, by either route. -/
+theorem isolated_tag_frame (T : Table) (t : Nat) (hI : T.tagIsolated t = true)
+    (pre post : Confs) (r : Raw) (S : SMap) :
+    (T.pass (pre ++ (t, r) :: post) S = none ↔ T.pass (pre ++ post) S = none) ∧
+    ∀ S1 S2, T.pass (pre ++ (t, r) :: post) S = some S1 → T.pass (pre ++ post) S = some S2 →
+      ∀ a, a ∉ T.boundAttrs t → S1 a = S2 a := by
+  simp only [Table.tagIsolated, Bool.and_eq_true] at hI
+  have hcb := hI.2
+  have hag : Agree (T.targetsOf t) (T.boundAttrs t) ⟨T.parseConf (pre ++ (t, r) :: post), S⟩ ⟨T.parseConf (pre ++ post), S⟩ :=
+    ⟨fun k hk => T.parseConf_skip k t hk pre post r, fun _ _ => rfl⟩
+  have h := execList_agree _ _ T.prog hcb _ _ hag
+  unfold Table.pass
+  cases h1 : execList T.prog ⟨T.parseConf (pre ++ (t, r) :: post), S⟩ <;>
+    cases h2 : execList T.prog ⟨T.parseConf (pre ++ post), S⟩ <;> rw [h1, h2] at h <;> simp_all [AgreeO]
+  intro a ha
+  exact h.2 a ha
+
 /-! ## the generated table -/
 
 open Gen
@@ -166,14 +186,15 @@ example :
 example : (miniTable tminRuleFixed).isSimple 0 0 0 = true ∧ (miniTable tminRuleFixed).numericNotTruthy = true ∧
     (miniTable tminRuleAsFound).numericNotTruthy = false := by decide
 
-/-- conf keys whose effect on the settings is *not* a simple binding (they set a run mode, switch
-other attributes, share a parameter key with another conf key, or are converted on the way):
-for these the merge is tied to the code by the correspondence run only. -/
+/-- conf keys that are *not* isolated (they set a run mode, switch or read other attributes, share a
+parameter key with another conf key, or are converted on the way): for these the merge is tied to the
+code by the correspondence run only.  Every other conf key of the code is isolated (`gen_simple_cover`), i.e.
+`isolated_tag_frame` and the binding theorems describe its whole effect. -/
 def interactingTags : List Nat := [
   Tag.primitive_axis, Tag.primitive_axes, Tag.symmetry, Tag.mesh_symmetry, Tag.eigenvectors,
   Tag.fc_decimals, Tag.dm_decimals, Tag.mesh_numbers, Tag.mp, Tag.mesh, Tag.band, Tag.qpoints, Tag.read_qpoints,
   Tag.fpitch, Tag.force_constants, Tag.read_force_constants, Tag.write_force_constants, Tag.qpoints_format,
-  Tag.readfc_format, Tag.writefc_format, Tag.fc_format, Tag.anime, Tag.modulation, Tag.irreps,
+  Tag.readfc_format, Tag.writefc_format, Tag.fc_format, Tag.anime_type, Tag.anime, Tag.modulation, Tag.irreps,
   Tag.pdos, Tag.xyz_projection, Tag.dos_range, Tag.fmax, Tag.fmin, Tag.tprop, Tag.ptprop, Tag.tdisp, Tag.tdispmat,
   Tag.tdispmat_cif, Tag.tdistance, Tag.projection_direction, Tag.moment, Tag.moment_order,
   Tag.include_fc, Tag.include_fs, Tag.include_born, Tag.include_nac_params, Tag.include_disp, Tag.include_all]
@@ -446,6 +467,7 @@ end PhononModel.C18
 #print axioms PhononModel.C18.file_tag_sets_attr
 #print axioms PhononModel.C18.numeric_option_value_applies
 #print axioms PhononModel.C18.numeric_option_reaches_attr
+#print axioms PhononModel.C18.isolated_tag_frame
 #print axioms PhononModel.C18.gen_prog_guarded
 #print axioms PhononModel.C18.truthiness_test_drops_zero
 #print axioms PhononModel.C18.not_none_test_keeps_zero
